@@ -646,7 +646,7 @@ const AES_KEY_LENS: [usize; 8] = [0, 1, 15, 16, 17, 31, 32, 33];
 const AES_IV_LENS: [usize; 6] = [0, 1, 15, 16, 17, 32];
 const AES_MSG_LENS: [usize; 6] = [0, 1, 15, 16, 17, 48];
 
-pub fn spaces(_tier: Tier) -> Vec<Space> {
+pub fn spaces(tier: Tier) -> Vec<Space> {
     let mut v = vec![];
     for e in entries() {
         let plan = Arc::new(Plan::new(e));
@@ -659,6 +659,82 @@ pub fn spaces(_tier: Tier) -> Vec<Space> {
             }
             run_call(acc, case, p2.entry.name, &p2.entry.call, &what, &input);
         }));
+    }
+    // deviation 2 (thorough tier): every pair of positions of every seed of at most 96 bytes x a 5 x 5 substitution alphabet,
+    // and a prefix cut combined with one substitution in the kept part, for every entry point
+    if tier.is_thorough() {
+        const D2_BYTES: [u8; 5] = [0x00, 0xff, 0x80, 0xfd, 0x4c];
+        const D2_TEXT: [&str; 5] = ["0", "z", " ", "'", "é"];
+        for e in entries() {
+            let e = Arc::new(e);
+            let mut table: Vec<(usize, u64, u64)> = vec![]; // (seed, number of pair cases, number of cut+subst cases)
+            let mut total = 0u64;
+            for (si, sd) in e.seeds.iter().enumerate() {
+                let l = sd.len() as u64;
+                if l < 2 || l > 96 || (e.text && !sd.is_ascii()) {
+                    continue;
+                }
+                let pairs = l * (l - 1) / 2 * 25;
+                let cuts = l * (l - 1) / 2 * 5;
+                table.push((si, pairs, cuts));
+                total += pairs + cuts;
+            }
+            if total == 0 {
+                continue;
+            }
+            let name = format!("d2/{}", e.name);
+            let e2 = e.clone();
+            v.push(Space::isolated(&name, total, move |case, acc| {
+                let mut idx = case.idx;
+                for (si, pairs, cuts) in &table {
+                    let seed = &e2.seeds[*si];
+                    let l = seed.len() as u64;
+                    let subst = |buf: &mut Vec<u8>, pos: usize, k: usize, text: bool| {
+                        if text {
+                            let mut out = buf[..pos].to_vec();
+                            out.extend_from_slice(D2_TEXT[k].as_bytes());
+                            out.extend_from_slice(&buf[pos + 1..]);
+                            *buf = out;
+                        } else {
+                            buf[pos] = D2_BYTES[k];
+                        }
+                    };
+                    // pair index -> (i, j) with i < j
+                    let unrank = |mut r: u64| -> (usize, usize) {
+                        let mut i = 0u64;
+                        loop {
+                            let row = l - 1 - i;
+                            if r < row {
+                                return (i as usize, (i + 1 + r) as usize);
+                            }
+                            r -= row;
+                            i += 1;
+                        }
+                    };
+                    if idx < *pairs {
+                        let (pr, kk) = (idx / 25, (idx % 25) as usize);
+                        let (i, j) = unrank(pr);
+                        let mut b = seed.clone();
+                        // substitute the later position first so that a multi-byte text replacement does not shift it
+                        subst(&mut b, j, kk / 5, e2.text);
+                        subst(&mut b, i, kk % 5, e2.text);
+                        run_call(acc, case, e2.name, &e2.call, &format!("seed{}:d2:byte{}&byte{}:={}", si, i, j, kk), &b);
+                        return;
+                    }
+                    idx -= pairs;
+                    if idx < *cuts {
+                        let (pr, k) = (idx / 5, (idx % 5) as usize);
+                        let (i, j) = unrank(pr);
+                        // keep the first j bytes, substitute position i < j
+                        let mut b = seed[..j].to_vec();
+                        subst(&mut b, i, k, e2.text);
+                        run_call(acc, case, e2.name, &e2.call, &format!("seed{}:d2:cut{}+byte{}:={}", si, j, i, k), &b);
+                        return;
+                    }
+                    idx -= cuts;
+                }
+            }));
+        }
     }
     // structure-aware deviation 1 on JSON documents and on their CBOR twins: every node of the document tree x
     // (23 replacement values, delete, duplicate), through the JSON and the compact decoders of Transaction and TxIn
